@@ -343,6 +343,46 @@ def s_mapkey(rng, depth, variant=None):
     return Scenario("InvMapKey", [tgt], invs, kind="mapping-symbolic-key-write-constant-key-read:" + ("read-first" if v % 2 == 0 else "write-first"))
 
 
+def s_mixedtuple(rng, depth, variant=None):
+    """a target whose parameter tuple mixes a multi-word STATIC item and a DYNAMIC item: `f(uint256[2] a, bytes b)` (or
+    `g(uint256 x, uint256[3] a, bytes b)`) records b.length and a flag for b.length == 65; the brute force calls it with every
+    configured length (0, 65, 1024) in the standard ABI encoding."""
+    v = rng.randrange(4) if variant is None else variant
+    nstat = 2 if v % 2 == 0 else 4                       # head words before the dynamic item's head slot
+    sig = "f(uint256[2] a, bytes b)" if nstat == 2 else "g(uint256 x, uint256[3] a, bytes b)"
+    off = asm.calldata_arg(nstat)                        # the head slot of b
+    blen = off + [4, "ADD", "CALLDATALOAD"]
+    body = blen + [0, "SSTORE"] + asm.eq_const(blen, 65) + [1, "SSTORE"] + asm.calldata_arg(1) + [2, "SSTORE"]
+    params = [e2e.Param("uint256", f"w{j}") for j in range(nstat)] + [e2e.Param("bytes", "b")]
+
+    def enc(n, words=None):
+        return e2e.abi_encode(params, (words or [1] * nstat) + [bytes(n)])
+
+    def from_model(model, args=()):
+        # the length of THIS call's b: its size symbol (or a literal) is the token after the head words and the offset
+        toks = [t for t in args]
+        sym = next((t for t in toks if t.startswith("p_b_length")), None)
+        if sym is not None:
+            n = model.get(sym, 0)
+        elif len(toks) > nstat + 1:
+            n = _tok(toks[nstat + 1], model)
+        else:
+            n = 0
+        words = [0] * nstat
+        return e2e.abi_encode(params, words + [bytes(min(n, 4096))])
+
+    f = TFn(sig, body, calldatas=[enc(n) for n in (0, 65, 1024)], from_model=from_model)
+    other = TFn("clear()", [0, 0, "SSTORE", 0, 1, "SSTORE"])
+    fns = [f, other] if v < 2 else [other, f]
+    fns += [TFn("len()", asm.return_word([0, "SLOAD"]), mutability="view"), TFn("flag()", asm.return_word([1, "SLOAD"]), mutability="view")]
+    tgt = Target("Mixed", fns)
+    ln = call_view(FIRST_CREATED, asm.selector("len()"))
+    fl = call_view(FIRST_CREATED, asm.selector("flag()"))
+    invs = [Inv("invariant_len_ne65", fail_if(asm.eq_const(ln, 65))), Inv("invariant_len_ne1024", fail_if(asm.eq_const(ln, 1024), "flag")),
+            Inv("invariant_flag_zero", fail_if(fl)), Inv("invariant_len_lt2000", fail_if(ln + [1999, "LT"]))]
+    return Scenario("InvMixed", [tgt], invs, kind="static-array-then-dynamic-parameter:" + ("2-words" if nstat == 2 else "4-words"))
+
+
 def s_alias(rng, depth, variant=None):
     """a symbolic address kept in storage (`set(address a)`) and CALLed by two different target functions started from the same
     frontier state (`poke()` sends 0x01, `poke2()` sends 0x02, the first returned word goes to `last`); candidate accounts: A
@@ -414,7 +454,7 @@ def s_symmap(rng, depth, variant=None):
 
 
 TEMPLATES = [s_counter, s_counter, s_setter, s_toggle, s_token, s_token, s_owned, s_owned, s_clock, s_two, s_two, s_two, s_boom,
-             s_symstore, s_symmap, s_assertinc, s_alias, s_indirect, s_mapkey]
+             s_symstore, s_symmap, s_assertinc, s_alias, s_indirect, s_mapkey, s_mixedtuple]
 
 
 # ------------------------------------------------------------------------------------------------ halmos output
@@ -498,7 +538,10 @@ def replay_lines(batch, scn, block, inv_name, init=()):
         f = sels.get((a, fn))
         if f is None:
             return None, None
-        cd = asm.selector(f.canon).to_bytes(4, "big") + b"".join((_tok(x, model) % e2e.W).to_bytes(32, "big") for x in args)
+        if f.from_model is not None:
+            cd = asm.selector(f.canon).to_bytes(4, "big") + f.from_model(model, args)
+        else:
+            cd = asm.selector(f.canon).to_bytes(4, "big") + b"".join((_tok(x, model) % e2e.W).to_bytes(32, "big") for x in args)
         idxs.append(batch.call(a, cd, sender=_tok(caller, model) & e2e.M160, value=0, commit=True))
         ts = [v for n, v in model.items() if n.startswith(f"halmos_block_timestamp_depth{k}_")]
         if ts:
@@ -783,7 +826,7 @@ def make_item(seed, tmpl_idx, depth, mode=None, variant=None):
     tmpl = TEMPLATES[tmpl_idx % len(TEMPLATES)]
     if mode:
         scn = tmpl(rng, depth, mode)
-    elif variant is not None and tmpl in (s_token, s_owned, s_two, s_symstore, s_symmap, s_assertinc, s_alias, s_indirect, s_mapkey):
+    elif variant is not None and tmpl in (s_token, s_owned, s_two, s_symstore, s_symmap, s_assertinc, s_alias, s_indirect, s_mapkey, s_mixedtuple):
         scn = tmpl(rng, depth, variant)
     else:
         scn = tmpl(rng, depth)
@@ -817,6 +860,9 @@ def correspond(ctx):
     # directed: target functions with an assertion-failure path and a mutating path, called repeatedly (probe reports awaited)
     for v in range(4):
         items.append(make_item(5000 + v, TEMPLATES.index(s_assertinc), 2 + v % 2, variant=v))
+    # directed: a target whose parameters mix a multi-word static item and a dynamic one
+    for v in range(4):
+        items.append(make_item(9000 + v, TEMPLATES.index(s_mixedtuple), 1 + v // 2, variant=v))
     # directed: mapping written through a symbolic key, read through a constant key by a sibling target and by the invariant
     for v in range(4):
         items.append(make_item(8000 + v, TEMPLATES.index(s_mapkey), 2, variant=v))
